@@ -46,12 +46,30 @@ func main() {
 
 // ------------------------------------------------------------------ op parsing (mirrors the Lean driver)
 
-func okFileName(n string) bool {
-	if !strings.HasSuffix(n, ".yaml") || len(n) <= 5 {
+func okSeg(t string) bool {
+	if t == "" {
 		return false
 	}
-	for _, c := range n[:len(n)-5] {
+	for _, c := range t {
 		if !(c >= 'a' && c <= 'z' || c >= '0' && c <= '9') {
+			return false
+		}
+	}
+	return true
+}
+
+// okFileName: [dir/[dir/]]name.yaml, every component [a-z0-9]+
+func okFileName(n string) bool {
+	parts := strings.Split(n, "/")
+	if len(parts) > 3 {
+		return false
+	}
+	last := parts[len(parts)-1]
+	if !strings.HasSuffix(last, ".yaml") || !okSeg(last[:len(last)-5]) {
+		return false
+	}
+	for _, d := range parts[:len(parts)-1] {
+		if !okSeg(d) {
 			return false
 		}
 	}
@@ -287,6 +305,8 @@ func jsonBody(p *putOp) []byte {
 func phaseOf(status int, body string) string {
 	has := func(s string) bool { return strings.Contains(body, s) }
 	switch {
+	case status == 226:
+		return "busy"
 	case has("Unsupported Method"):
 		return "method"
 	case has("Lunar Gateway config is being updated"):
@@ -309,8 +329,13 @@ func phaseOf(status int, body string) string {
 	return "unknown-" + strconv.Itoa(status)
 }
 
-// once performs the request one time; returns status, phase, mid verdict vectors.
-func (w *world) once(p *putOp) (int, string, []string) {
+type resp struct {
+	st   int
+	body string
+}
+
+// setup installs the fault rules and the gate of a request.
+func (w *world) setup(p *putOp) {
 	w.ctl.ClearFaults()
 	w.hook.reset()
 	w.ha.set(0)
@@ -338,15 +363,20 @@ func (w *world) once(p *putOp) (int, string, []string) {
 		w.ctl.AddFault(sched.FaultRule{Op: "remove", ArgSuffix: real(p.faultArg), Nth: 1})
 	}
 	w.ctl.Gate(yieldPoint, p.gate)
-	type resp struct {
-		st   int
-		body string
-	}
+}
+
+func (w *world) launch(p *putOp) chan resp {
 	done := make(chan resp, 1)
+	body := jsonBody(p)
 	go func() {
-		st, b := w.do(p.method, "/"+p.ep, jsonBody(p))
+		st, b := w.do(p.method, "/"+p.ep, body)
 		done <- resp{st, b}
 	}()
+	return done
+}
+
+// await serves the switch-point gate (probing there) until the request has been answered.
+func (w *world) await(p *putOp, done chan resp) (int, string, []string) {
 	var mid []string
 	var r resp
 	deadline := time.Now().Add(60 * time.Second)
@@ -363,8 +393,12 @@ loop:
 			continue
 		}
 		if time.Now().After(deadline) {
+			// the handler hangs: an observable outcome; this engine is not usable any more
 			w.ctl.ReleaseAll()
-			panic("c08 harness: request did not finish")
+			w.hook.unpark()
+			w.transportErrors++
+			r = resp{0, "hang"}
+			break loop
 		}
 		time.Sleep(50 * time.Microsecond)
 	}
@@ -375,6 +409,59 @@ loop:
 		return 0, "transport-error:" + r.body, mid
 	}
 	return r.st, phaseOf(r.st, r.body), mid
+}
+
+// once performs the request one time; returns status, phase, mid verdict vectors.
+func (w *world) once(p *putOp) (int, string, []string) {
+	w.setup(p)
+	return w.await(p, w.launch(p))
+}
+
+// hold starts a push and parks it at the first read of its Backup(). false: it ended before.
+func (w *world) hold(p *putOp) (bool, int, string, []string) {
+	w.setup(&putOp{faultKind: "none"})
+	w.hook.armPark()
+	done := w.launch(p)
+	deadline := time.Now().Add(30 * time.Second)
+	for !w.hook.parked() {
+		select {
+		case r := <-done:
+			w.hook.unpark()
+			done <- r
+			st, ph, mid := w.await(p, done)
+			return false, st, ph, mid
+		default:
+		}
+		if time.Now().After(deadline) {
+			w.hook.unpark()
+			st, ph, mid := w.await(p, done)
+			return false, st, ph, mid
+		}
+		time.Sleep(50 * time.Microsecond)
+	}
+	w.heldPut, w.heldDone = p, done
+	return true, 0, "", nil
+}
+
+// release lets the parked push finish (with ITS fault rules and gate).
+func (w *world) release() (int, string, []string) {
+	p, done := w.heldPut, w.heldDone
+	w.heldPut, w.heldDone = nil, nil
+	w.setup(p)
+	w.hook.unpark()
+	return w.await(p, done)
+}
+
+func fmtAnswer(o *caseStats, st int, ph string, mid []string) string {
+	m := "%e"
+	if len(mid) > 0 {
+		m = strings.Join(mid, ";")
+	}
+	if st == 0 {
+		o.Count("transport-error")
+		return fmt.Sprintf("status=%s mid=%s", ph, m) // status=transport-error:<class>
+	}
+	return fmt.Sprintf("status=%d phase=%s mid=%s", st, ph, m)
 }
 
 // orderOK: did Go's map iteration put the faulted path where the op line says (first / last among
@@ -438,6 +525,9 @@ func runCase(ops []string) ([]string, *caseStats) {
 	for i := range ops {
 		outs[i] = x.execOp(i)
 	}
+	if w.heldPut != nil {
+		w.release() // a case must not leave a push parked
+	}
 	w.bodies.closeAll()
 	x.o.nontrivial = x.nontrivial
 	return outs, x.o
@@ -465,6 +555,10 @@ func (x *caseRun) execOp(i int) string {
 			x.live = false
 			return "bad-op"
 		}
+		if w.heldPut != nil {
+			w.release()
+		}
+		w.hook.unpark()
 		w.ctl.ClearFaults()
 		w.ctl.ReleaseAll() // nobody may stay parked at the switch point from an aborted case
 		w.ctl.Gate(yieldPoint, false)
@@ -500,6 +594,9 @@ func (x *caseRun) execOp(i int) string {
 		}
 		if !x.live {
 			return "skip"
+		}
+		if w.heldPut != nil && (p.faultKind != "none" || p.gate) {
+			return "bad-op"
 		}
 		var st int
 		var ph string
@@ -543,15 +640,44 @@ func (x *caseRun) execOp(i int) string {
 		if ph == "cleanup" || ph == "save" || ph == "reload" || ph == "ok" {
 			x.nontrivial = true
 		}
-		m := "%e"
-		if len(mid) > 0 {
-			m = strings.Join(mid, ";")
+		return fmtAnswer(o, st, ph, mid)
+	case ws[0] == "hold":
+		p, ok := parsePut(ws[1:])
+		if !ok {
+			return "bad-op"
 		}
-		if st == 0 {
-			o.Count("transport-error")
-			return fmt.Sprintf("status=%s mid=%s", ph, m) // status=transport-error:<class>
+		if !x.live {
+			return "skip"
 		}
-		return fmt.Sprintf("status=%d phase=%s mid=%s", st, ph, m)
+		if w.heldPut != nil {
+			return "bad-op"
+		}
+		parked, st, ph, mid := w.hold(p)
+		if parked {
+			if !x.replaying {
+				o.Count("hold-parked")
+			}
+			return "parked"
+		}
+		return fmtAnswer(o, st, ph, mid)
+	case ws[0] == "release" && len(ws) == 1:
+		if !x.live {
+			return "skip"
+		}
+		if w.heldPut == nil {
+			return "none"
+		}
+		p := w.heldPut
+		st, ph, mid := w.release()
+		if !x.replaying {
+			o.Count("release-" + ph)
+			o.Count("status-" + strconv.Itoa(st))
+			o.Count("ep-" + p.ep)
+		}
+		if ph == "cleanup" || ph == "save" || ph == "reload" || ph == "ok" {
+			x.nontrivial = true
+		}
+		return fmtAnswer(o, st, ph, mid)
 	}
 	return "bad-op"
 }
